@@ -58,12 +58,16 @@ def oracle(c):
             pos = line.find(c["msg"])
             if pos < 0:
                 why.append("message missing")
-            for a in c["args"]:
-                pos2 = line.find(a, max(pos, 0))
-                if pos2 < 0:
+            alts = c.get("args_alt") or c["args"]
+            for a, b in zip(c["args"], alts):
+                # an argument in key position may be rendered with %s instead of %v (args_alt)
+                cand = [(line.find(x, max(pos, 0)), x) for x in (a, b)]
+                cand = [(p, x) for p, x in cand if p >= 0]
+                if not cand:
                     why.append("argument %r missing or out of order" % a)
                     break
-                pos = pos2 + len(a)
+                pos2, x = min(cand)
+                pos = pos2 + len(x)
     else:
         rec = c.get("slog")
         if (rec is not None) != want:
@@ -78,7 +82,71 @@ def oracle(c):
             flat = [x for kv in rec["attrs"] for x in kv if x != "!BADKEY"]
             if flat != c["args"]:
                 why.append("arguments differ or are out of order")
+    return why + oracle_later(c, want)
+
+
+def oracle_later(c, want):
+    """hostile cases: the call must come back, and a LATER record through the same logger must still appear."""
+    why = []
+    if "after_returned" not in c:
+        return why
+    if not c["returned"]:
+        why.append("the logging call did not return within the watchdog (%d ms)" % c["watchdog_ms"])
+    later_want = LV[c["after_lvl"]] >= c["thr"]
+    if not c["after_returned"]:
+        why.append("a later %s record logged through the same logger never came back within the watchdog (%d ms): the logger is wedged%s" % (
+            NAMES[c["after_lvl"]], c["watchdog_ms"], " (the first call panicked while holding the logger's lock?)" if c.get("panic") else ""))
+    elif c["after_emitted"] != later_want:
+        why.append("later %s record emitted=%s, expected %s" % (NAMES[c["after_lvl"]], c["after_emitted"], later_want))
+    if c.get("after_panic"):
+        why.append("the later call panicked: " + c["after_panic"])
     return why
+
+
+def oracle_shared(sc):
+    """Several SimpleLoggers over one shared *log.Logger, sequential emissions: every step emits iff its level passes the
+    threshold of the logger it went through, and the emitted line carries exactly one level label: the step's own."""
+    for k, st in enumerate(sc["steps"]):
+        why = []
+        if st.get("panic"):
+            why.append("panic: " + st["panic"])
+        if st["op"] == "log":
+            want = LV[st.get("lvl", 0)] >= st["thr"]
+            out = st.get("out") or []
+            if len(out) != (1 if want else 0):
+                why.append("%d lines written, expected %d (level>=threshold of this logger is %s)" % (len(out), 1 if want else 0, want))
+            for line in out:
+                p = line.find("msg=")
+                if p < 0:
+                    why.append("line without msg=: %r" % line)
+                    continue
+                labels = [t for t in line[:p].split() if t in NAMES]
+                own = NAMES[st.get("lvl", 0)]
+                if labels != [own]:
+                    why.append("the line's header %r carries the labels %s; a record logged at %s must carry exactly the label %s" % (
+                        line[:p], labels, own, own))
+                pos = line.find(st["msg"], p)
+                if pos < 0:
+                    why.append("message missing")
+                for a in st.get("args") or []:
+                    pos2 = line.find(a, max(pos, 0))
+                    if pos2 < 0:
+                        why.append("argument %r missing or out of order" % a)
+                        break
+                    pos = pos2 + len(a)
+        if why:
+            return k, why
+    return None, []
+
+
+def shared_as_cases(sc):
+    """The log steps of a shared-logger scenario as SimpleLogger cases for the model comparison (the model's line for a
+    record does not depend on what was logged before or on other SimpleLoggers over the same log.Logger)."""
+    if sc["initial_prefix"]:
+        return []
+    return [{"kind": "simple", "thr": st["thr"], "lvl": st.get("lvl", 0), "msg": st["msg"], "args": st.get("args") or [],
+             "simple": (st.get("out") or [None])[0], "scenario": sc["scenario"]}
+            for st in sc["steps"] if st["op"] == "log" and len(st.get("out") or []) <= 1]
 
 
 def model_mismatches(cases):
@@ -134,6 +202,23 @@ def run_matrix(binp):
     return [json.loads(l) for l in out.splitlines() if l.startswith("{")]
 
 
+def run_lines(binp, args):
+    rc, out = vlib.run([binp] + args, timeout=300)
+    if rc != 0:
+        raise RuntimeError("logh %s failed: %s" % (" ".join(args), out[-2000:]))
+    return [json.loads(l) for l in out.splitlines() if l.startswith("{")]
+
+
+def shared_failure(sc, k, why):
+    steps = sc["steps"][:k + 1]
+    return {"case": {"kind": "shared", "scenario": sc["scenario"], "seed": sc["seed"], "initial_prefix": sc["initial_prefix"],
+                     "failing_step": k, "steps": steps[-12:] if len(steps) > 12 else steps,
+                     "steps_note": "the last steps up to the failing one (all of them when at most 12); `logh shared SEED` prints the whole scenario"},
+            "why": why,
+            "how": "logh shared: several SimpleLoggers created at different times over ONE *log.Logger, one call at a time; "
+                   "the lines each call wrote to the shared log.Logger are recorded"}
+
+
 def run_stress(binp, g, n, seed):
     rc, out = vlib.run([binp, "stress", str(g), str(n), str(seed)], timeout=600)
     if rc != 0:
@@ -152,6 +237,26 @@ def run(ctx):
         why = oracle(c)
         if why:
             failures.append({"case": c, "why": why, "how": "logh matrix: one logger call, output captured"})
+    # awkward argument values (typed-nil pointers, panicking Error()/String(), nil ...) + a later record under a watchdog
+    hostile = run_lines(binp, ["hostile"])
+    for c in hostile:
+        why = oracle(c)
+        if why:
+            failures.append({"case": c, "why": why, "how": "logh hostile: one logger call with an awkward argument value (%s, in %s position), "
+                             "then a later ERROR record through the same logger under a watchdog" % (c["value"], c["position"])})
+    # several SimpleLoggers over one shared *log.Logger
+    shared = run_lines(binp, ["shared", str(ctx.seed)])
+    if len(shared) < 10:
+        raise RuntimeError("logh shared printed %d scenarios" % len(shared))
+    shared_cases = []
+    for sc in shared:
+        k, why = oracle_shared(sc)
+        if why:
+            failures.append(shared_failure(sc, k, why))
+        shared_cases += shared_as_cases(sc)
+    matrix_cases = len(cases)
+    # model comparison: the matrix, the hostile cases inside the model's domain with every level enabled, the shared-logger steps
+    cases = cases + [c for c in hostile if not c.get("no_model") and c["thr"] == -8] + shared_cases
     idx = None
     if res.get("ok") or os.path.exists(os.path.join(vlib.coq_dir(PROJ), "theories", "Logger.vo")):
         idx, mout = model_mismatches(cases)
@@ -186,17 +291,27 @@ def run(ctx):
     distinct = len({json.dumps([c["kind"], c["thr"], c["lvl"], c["msg"], c["args"]]) for c in emitted if c["args"]})
     cov = vlib.proof_coverage(res, PROJ, "C18")
     cov.update({
-        "evaluations": len(cases) + sum(s["lines"] for s in stress),
+        "evaluations": len(cases) + len(hostile) + sum(s["lines"] for s in stress),
         "distinct_nontrivial": distinct,
         "rule": "matrix: 15 thresholds x 5 levels x 9 argument lists on SimpleLogger and SlogLogger (+NoOp), compared with the Coq model "
                 "evaluated inside Coq (vm_compute) and with a property oracle; non-trivial = an emitted record with at least one argument. "
-                "stress: G goroutines x N records at mixed levels through one SimpleLogger, every line's label checked",
+                "stress: G goroutines x N records at mixed levels through one SimpleLogger, every line's label checked. "
+                "hostile: 3 thresholds x 5 levels x 9 awkward values (typed-nil pointers implementing error / Stringer, panicking "
+                "Error()/String(), nil interface, nil slice/map, controls) x 5 positions (key, value, tail, both, middle) on both loggers, "
+                "each followed by a later record through the same logger under a watchdog. shared: 12 scenarios (4 scripted, 8 random "
+                "from the seed) of up to 6 SimpleLoggers created at different times over one *log.Logger, interleaved sequential "
+                "emissions, every line must carry exactly its own level's label",
         "samples": cases[3:6] + [stress[0]],
         "exhaustive": False,
         "model_mismatches": len(mismatches),
         "oracle_failures": len(failures),
         "stress_rounds": stress,
-        "matrix_cases": len(cases),
+        "matrix_cases": matrix_cases,
+        "hostile_cases": len(hostile),
+        "hostile_later_records_seen": sum(1 for c in hostile if c["after_emitted"]),
+        "shared_scenarios": len(shared),
+        "shared_log_steps": sum(1 for sc in shared for st in sc["steps"] if st["op"] == "log"),
+        "model_cases_in_coq": len(cases),
         "partial_runtime": "that the Go runtime interleaves SetPrefix/Output as the labelled transition system assumes is observed by the stress run, not proved",
     })
     vlib.write_evidence(ctx, cov, assumptions=[
@@ -218,9 +333,18 @@ def replay(ctx, path):
             vlib.report_violation(ctx, obj)
             return 1
         return 0
-    cases = run_matrix(binp)
+    if c.get("kind") == "shared":
+        for sc in run_lines(binp, ["shared", str(c["seed"])]):
+            if sc["scenario"] == c["scenario"]:
+                k, why = oracle_shared(sc)
+                print(json.dumps({"scenario": sc["scenario"], "failing_step": k, "why": why}))
+                if why:
+                    vlib.report_violation(ctx, shared_failure(sc, k, why))
+                    return 1
+        return 0
+    cases = run_lines(binp, ["hostile"]) if "after_returned" in c else run_matrix(binp)
     for d in cases:
-        if all(d.get(k) == c.get(k) for k in ("kind", "thr", "lvl", "msg", "args")):
+        if all(d.get(k) == c.get(k) for k in ("kind", "thr", "lvl", "msg", "args", "value", "position")):
             why = oracle(d)
             print(json.dumps({"case": d, "why": why}))
             if why:
